@@ -6,7 +6,6 @@ import (
 	"go/token"
 	"go/types"
 
-	"golang.org/x/tools/go/cfg"
 
 	"pgoverif/checker/an"
 	"pgoverif/checker/core"
@@ -269,67 +268,37 @@ func runOperandTraversed(c *core.Ctx) {
 
 func runWriteUncond(c *core.Ctx) {
 	e := EnvOf(c.Prog)
-	for _, tn := range []string{"LWWSet", "AWORSet"} {
-		t := mustType(c, e, an.PkgResources, tn)
-		fn := mustMethod(c, e, an.PkgResources, tn, "Write")
-		if t == nil || fn == nil {
-			continue
-		}
-		info := fn.Pkg.Info
-		g := e.Graph(fn)
-		var sw *ast.SwitchStmt
-		ast.Inspect(fn.Body(), func(m ast.Node) bool {
-			if s, ok := m.(*ast.SwitchStmt); ok && sw == nil {
-				sw = s
+	// the operation's own component map is stored into (Set) exactly on the paths of that operation, whatever else is
+	// known about the element: atoms the rows do not declare (membership tests, lookups) must not matter
+	storeInto := func(field string) func(info *types.Info, n ast.Node) bool {
+		return func(info *types.Info, n ast.Node) bool {
+			as, ok := n.(*ast.AssignStmt)
+			if !ok || len(as.Lhs) != 1 || len(as.Rhs) != 1 {
+				return false
 			}
-			return true
-		})
-		if sw == nil {
-			c.Lost(tn+".Write:switch", "no switch on the operation found")
-			continue
-		}
-		st := t.Underlying().(*types.Struct)
-		arms := 0
-		for _, cs := range sw.Body.List {
-			cc := cs.(*ast.CaseClause)
-			if len(cc.List) != 1 {
-				continue
+			f := an.SelectedField(info, as.Lhs[0])
+			if f == nil || f.Name() != field {
+				return false
 			}
-			op := an.ObjOf(info, cc.List[0])
-			if op == nil {
-				continue
+			call, ok := an.Unparen(as.Rhs[0]).(*ast.CallExpr)
+			if !ok {
+				return false
 			}
-			arms++
-			bb := g.BlockOfStmt(cc, cfg.KindSwitchCaseBody)
-			if bb == nil {
-				c.Lost(fmt.Sprintf("%s.Write:%s", tn, op.Name()), "CFG block of the arm not found")
-				continue
-			}
-			// which component does this arm store into (on every path)?
-			var stored []string
-			for i := 0; i < st.NumFields(); i++ {
-				f := st.Field(i)
-				isStore := func(a ast.Node) bool {
-					as, ok := a.(*ast.AssignStmt)
-					if !ok || len(as.Lhs) != 1 || len(as.Rhs) != 1 || an.SelectedField(info, as.Lhs[0]) != f {
-						return false
-					}
-					call, ok := an.Unparen(as.Rhs[0]).(*ast.CallExpr)
-					if !ok {
-						return false
-					}
-					sel, ok := an.Unparen(call.Fun).(*ast.SelectorExpr)
-					return ok && sel.Sel.Name == "Set" && an.SelectedField(info, sel.X) == f
-				}
-				if g.PassesWithin(bb, cc.Pos(), cc.End(), isStore) {
-					stored = append(stored, f.Name())
-				}
-			}
-			c.Check(len(stored) > 0, fmt.Sprintf("%s.Write:%s-recorded", tn, op.Name()), cc.Pos(), fmt.Sprintf("every path of the arm stores into %v", stored),
-				"the "+op.Name()+" arm of "+tn+".Write does not record the operation in a component map on every path: an operation that looks redundant locally (e.g. removing an element not currently in the set) is dropped, although a concurrent operation of another replica may make it matter after merging")
-		}
-		if arms < 2 {
-			c.Lost(tn+".Write:arms", "expected add and remove arms, found %d", arms)
+			sel, ok := an.Unparen(call.Fun).(*ast.SelectorExpr)
+			return ok && sel.Sel.Name == "Set" && an.SelectedField(info, sel.X) == f
 		}
 	}
+	var rows []dtRow
+	for _, w := range []struct{ typ, addField, remField string }{{"LWWSet", "addSet", "remSet"}, {"AWORSet", "addMap", "remMap"}} {
+		if mustType(c, e, an.PkgResources, w.typ) == nil || mustMethod(c, e, an.PkgResources, w.typ, "Write") == nil {
+			continue
+		}
+		ops := map[string]string{"cmd.AsNumber()": ""}
+		rows = append(rows,
+			dtRow{fn: w.typ + ".Write", key: "addOp-recorded", why: "an add is recorded in " + w.addField + " on every path of the add operation, and only there",
+				find: storeInto(w.addField), ints: ops, ref: func(a dtAtoms) bool { return a.I("cmd.AsNumber()") == a.K("addOp") }},
+			dtRow{fn: w.typ + ".Write", key: "remOp-recorded", why: "a removal is recorded in " + w.remField + " on every path of the remove operation, and only there",
+				find: storeInto(w.remField), ints: ops, ref: func(a dtAtoms) bool { return a.I("cmd.AsNumber()") == a.K("remOp") }})
+	}
+	runDecisionRows(c, e, an.PkgResources, "", rows)
 }
